@@ -29,6 +29,7 @@ Lemma p52_even : p52 = 2 * 2251799813685248. Proof. reflexivity. Qed.
 Definition S1074 : Z := 2 ^ 1074.
 Lemma S1074_pos : 0 < S1074.
 Proof. unfold S1074. apply Z.pow_pos_nonneg; lia. Qed.
+Lemma S1074_eq : S1074 = 2 ^ 1074. Proof. reflexivity. Qed.
 
 Local Opaque Z.pow.
 Global Opaque S1074.
@@ -126,4 +127,354 @@ Lemma ival_nonneg b : 0 <= b -> 0 <= ival b.
 Proof.
   intros Hb. destruct (bits_decomp b Hb) as (k & m & Hk & Hm & Hc & ->).
   pose proof p53_eq. rewrite ival_enc by lia. pose proof (pow2_pos k Hk). nia.
+Qed.
+
+(* ---------- the structure of round_mag ---------- *)
+Definition rnd (nn dd : Z) : Z :=
+  let q := nn / dd in
+  let r := nn mod dd in
+  match 2 * r ?= dd with Gt => q + 1 | Eq => q + q mod 2 | Lt => q end.
+
+Definition choose_e (n d : Z) : Z :=
+  let e0 := Z.max (-1074) (Z.log2 n - Z.log2 d - 52) in
+  let q0 := scale_num n e0 / scale_den d e0 in
+  if p53 <=? q0 then e0 + 1 else if (q0 <? p52) && (-1074 <? e0) then e0 - 1 else e0.
+
+Definition finish (n d e : Z) : Z :=
+  let q' := rnd (scale_num n e) (scale_den d e) in
+  let '(q2, e2) := if p53 <=? q' then (p52, e + 1) else (q', e) in
+  if q2 <? p52 then q2
+  else let ex := e2 + 1075 in
+       if 2047 <=? ex then inf_bits else ex * p52 + (q2 - p52).
+
+Lemma round_mag_eq n d : 0 < n -> round_mag n d = finish n d (choose_e n d).
+Proof.
+  intros Hn. unfold round_mag. destruct (Z.leb_spec n 0) as [Hle | Hgt]; [lia |]. reflexivity.
+Qed.
+
+Lemma scale_num_eq n e : scale_num n e = n * 2 ^ (Z.max (- e) 0).
+Proof.
+  unfold scale_num. destruct (Z.ltb_spec e 0) as [Hl | Hg].
+  - rewrite Z.max_l by lia. reflexivity.
+  - rewrite Z.max_r by lia. rewrite Z.pow_0_r. lia.
+Qed.
+
+Lemma scale_den_eq d e : scale_den d e = d * 2 ^ (Z.max e 0).
+Proof.
+  unfold scale_den. destruct (Z.ltb_spec e 0) as [Hl | Hg].
+  - rewrite Z.max_r by lia. rewrite Z.pow_0_r. lia.
+  - rewrite Z.max_l by lia. reflexivity.
+Qed.
+
+Lemma scale_den_pos d e : 0 < d -> 0 < scale_den d e.
+Proof.
+  intros Hd. rewrite scale_den_eq. pose proof (pow2_pos (Z.max e 0) ltac:(lia)). nia.
+Qed.
+
+Lemma scale_num_pos n e : 0 < n -> 0 < scale_num n e.
+Proof.
+  intros Hn. rewrite scale_num_eq. pose proof (pow2_pos (Z.max (- e) 0) ltac:(lia)). nia.
+Qed.
+
+(* one step down in e doubles the scaled quotient *)
+Lemma scale_step n d e :
+  (scale_num n (e - 1) = 2 * scale_num n e /\ scale_den d (e - 1) = scale_den d e) \/
+  (scale_num n (e - 1) = scale_num n e /\ scale_den d e = 2 * scale_den d (e - 1)).
+Proof.
+  rewrite !scale_num_eq, !scale_den_eq.
+  destruct (Z_le_gt_dec e 0) as [Hle | Hgt].
+  - left. replace (Z.max (- (e - 1)) 0) with (Z.max (- e) 0 + 1) by lia.
+    rewrite Z.pow_add_r by lia. rewrite Z.pow_1_r.
+    replace (Z.max (e - 1) 0) with (Z.max e 0) by lia. lia.
+  - right. replace (Z.max (- (e - 1)) 0) with (Z.max (- e) 0) by lia.
+    replace (Z.max e 0) with (Z.max (e - 1) 0 + 1) by lia.
+    rewrite Z.pow_add_r by lia. rewrite Z.pow_1_r. lia.
+Qed.
+
+Lemma pow_lt_core n d a1 b c en ep :
+  0 < n -> 0 < d -> n < 2 ^ a1 -> 2 ^ b <= d ->
+  0 <= a1 -> 0 <= b -> 0 <= c -> 0 <= en -> 0 <= ep ->
+  a1 + en <= b + c + ep ->
+  n * 2 ^ en < 2 ^ c * (d * 2 ^ ep).
+Proof.
+  intros Hn Hd Hna Hbd Ha1 Hb Hc Hen Hep Hexp.
+  assert (Hpow : 2 ^ a1 * 2 ^ en <= 2 ^ b * 2 ^ c * 2 ^ ep).
+  { rewrite <- !Z.pow_add_r by lia. apply Z.pow_le_mono_r; lia. }
+  pose proof (pow2_pos a1 Ha1) as HA. pose proof (pow2_pos b Hb) as HB.
+  pose proof (pow2_pos c Hc) as HC. pose proof (pow2_pos en Hen) as HEn.
+  pose proof (pow2_pos ep Hep) as HEp.
+  revert Hna Hbd Hpow HA HB HC HEn HEp.
+  generalize (2 ^ a1) (2 ^ b) (2 ^ c) (2 ^ en) (2 ^ ep). intros A B C En Ep Hna Hbd Hpow HA HB HC HEn HEp.
+  assert (H1 : n * B < A * d) by nia.
+  assert (H2 : n * En * B < A * En * d) by nia.
+  assert (H3 : A * En * d <= B * C * Ep * d) by nia.
+  apply Z.mul_lt_mono_pos_r with (p := B); [exact HB |]. lia.
+Qed.
+
+Lemma pow_le_core n d a b1 c en ep :
+  0 < n -> 0 < d -> 2 ^ a <= n -> d < 2 ^ b1 ->
+  0 <= a -> 0 <= b1 -> 0 <= c -> 0 <= en -> 0 <= ep ->
+  c + b1 + ep <= a + en ->
+  2 ^ c * (d * 2 ^ ep) <= n * 2 ^ en.
+Proof.
+  intros Hn Hd Han Hdb Ha Hb1 Hc Hen Hep Hexp.
+  assert (Hpow : 2 ^ c * 2 ^ b1 * 2 ^ ep <= 2 ^ a * 2 ^ en).
+  { rewrite <- !Z.pow_add_r by lia. apply Z.pow_le_mono_r; lia. }
+  pose proof (pow2_pos a Ha) as HA. pose proof (pow2_pos b1 Hb1) as HB.
+  pose proof (pow2_pos c Hc) as HC. pose proof (pow2_pos en Hen) as HEn.
+  pose proof (pow2_pos ep Hep) as HEp.
+  revert Han Hdb Hpow HA HB HC HEn HEp.
+  generalize (2 ^ a) (2 ^ b1) (2 ^ c) (2 ^ en) (2 ^ ep). intros A B C En Ep Han Hdb Hpow HA HB HC HEn HEp.
+  assert (H1 : C * (d * Ep) <= C * B * Ep) by nia.
+  assert (H2 : A * En <= n * En) by nia.
+  lia.
+Qed.
+
+(* upper bound: for any e at or above the estimate, the scaled quotient is below 2^53 *)
+Lemma scaled_lt_p53 n d e :
+  0 < n -> 0 < d -> Z.log2 n - Z.log2 d - 52 <= e ->
+  scale_num n e < p53 * scale_den d e.
+Proof.
+  intros Hn Hd He.
+  destruct (Z.log2_spec n Hn) as [Hn1 Hn2]. destruct (Z.log2_spec d Hd) as [Hd1 Hd2].
+  pose proof (Z.log2_nonneg n) as Hln. pose proof (Z.log2_nonneg d) as Hld.
+  rewrite scale_num_eq, scale_den_eq.
+  replace p53 with (2 ^ 53) by reflexivity.
+  apply pow_lt_core with (a1 := Z.succ (Z.log2 n)) (b := Z.log2 d); try lia.
+Qed.
+
+(* lower bound: one below the estimate, the scaled quotient is at least 2^52 *)
+Lemma scaled_ge_p52 n d e :
+  0 < n -> 0 < d -> e <= Z.log2 n - Z.log2 d - 53 ->
+  p52 * scale_den d e <= scale_num n e.
+Proof.
+  intros Hn Hd He.
+  destruct (Z.log2_spec n Hn) as [Hn1 Hn2]. destruct (Z.log2_spec d Hd) as [Hd1 Hd2].
+  pose proof (Z.log2_nonneg n) as Hln. pose proof (Z.log2_nonneg d) as Hld.
+  rewrite scale_num_eq, scale_den_eq.
+  replace p52 with (2 ^ 52) by reflexivity.
+  apply pow_le_core with (a := Z.log2 n) (b1 := Z.succ (Z.log2 d)); try lia.
+Qed.
+
+Lemma div_lt_iff a b q : 0 < b -> (a / b < q <-> a < b * q).
+Proof.
+  intros Hb. split; intros H.
+  - pose proof (Z.div_mod a b ltac:(lia)) as Hdm. pose proof (Z.mod_pos_bound a b Hb) as Hm. nia.
+  - apply Z.div_lt_upper_bound; assumption.
+Qed.
+
+Lemma div_ge_iff a b q : 0 < b -> (q <= a / b <-> b * q <= a).
+Proof.
+  intros Hb. split; intros H.
+  - pose proof (Z.div_mod a b ltac:(lia)) as Hdm. pose proof (Z.mod_pos_bound a b Hb) as Hm. nia.
+  - apply Z.div_le_lower_bound; assumption.
+Qed.
+
+Definition e_ok (n d e : Z) : Prop :=
+  -1074 <= e /\
+  (p52 <= scale_num n e / scale_den d e < p53 \/
+   (e = -1074 /\ 0 <= scale_num n e / scale_den d e < p52)).
+
+(* KEY LEMMA: the chosen exponent puts the floor quotient in [2^52, 2^53), or e = -1074 (subnormal) *)
+Lemma choose_e_ok n d : 0 < n -> 0 < d -> e_ok n d (choose_e n d).
+Proof.
+  intros Hn Hd. unfold choose_e.
+  set (e0 := Z.max (-1074) (Z.log2 n - Z.log2 d - 52)).
+  set (q0 := scale_num n e0 / scale_den d e0).
+  pose proof (scale_den_pos d e0 Hd) as Hdd0. pose proof (scale_num_pos n e0 Hn) as Hnn0.
+  assert (Hq0lt : q0 < p53).
+  { apply div_lt_iff; [exact Hdd0 |]. rewrite Z.mul_comm. apply scaled_lt_p53; lia. }
+  assert (Hq0nn : 0 <= q0) by (apply Z.div_pos; lia).
+  destruct (Z.leb_spec p53 q0) as [Hbig | _]; [lia |].
+  destruct (Z.ltb_spec q0 p52) as [Hsmall | Hnorm]; cbv beta iota delta [andb].
+  - destruct (Z.ltb_spec (-1074) e0) as [Hsub | Hsub].
+    + (* e0 - 1 *)
+      assert (He0 : e0 = Z.log2 n - Z.log2 d - 52) by lia.
+      pose proof (scale_den_pos d (e0 - 1) Hd) as Hdd1.
+      split; [lia |]. left. split.
+      * apply div_ge_iff; [exact Hdd1 |]. rewrite Z.mul_comm. apply scaled_ge_p52; lia.
+      * apply div_lt_iff; [exact Hdd1 |].
+        apply (div_lt_iff _ _ _ Hdd0) in Hsmall. pose proof p53_eq as Hp53.
+        destruct (scale_step n d e0) as [[H1 H2] | [H1 H2]]; rewrite H1; lia.
+    + split; [lia |]. right. split; [lia |]. fold q0. lia.
+  - split; [lia |]. left. fold q0. lia.
+Qed.
+
+Lemma rnd_cases nn dd :
+  0 < dd ->
+  let q := nn / dd in let r := nn mod dd in
+  (rnd nn dd = q /\ 2 * r <= dd /\ (2 * r = dd -> q mod 2 = 0)) \/
+  (rnd nn dd = q + 1 /\ dd <= 2 * r /\ (2 * r = dd -> q mod 2 = 1)).
+Proof.
+  intros Hdd q r. unfold rnd. fold q r.
+  pose proof (Z.mod_pos_bound q 2 ltac:(lia)) as Hq2.
+  destruct (Z.compare_spec (2 * r) dd) as [He | Hl | Hg].
+  - destruct (Z.eq_dec (q mod 2) 0) as [H0 | H1].
+    + left. rewrite H0. lia.
+    + right. assert (H1' : q mod 2 = 1) by lia. rewrite H1'. lia.
+  - left. lia.
+  - right. lia.
+Qed.
+
+Lemma finish_eq n d e :
+  0 < d -> e_ok n d e ->
+  finish n d e = Z.min inf_bits ((e + 1074) * p52 + rnd (scale_num n e) (scale_den d e)).
+Proof.
+  intros Hd [He Hq]. unfold finish.
+  pose proof (scale_den_pos d e Hd) as Hdd.
+  pose proof (rnd_cases (scale_num n e) (scale_den d e) Hdd) as Hr. cbv zeta in Hr.
+  set (q := scale_num n e / scale_den d e) in *.
+  set (q' := rnd (scale_num n e) (scale_den d e)) in *.
+  assert (Hqq : q <= q' <= q + 1) by lia. clear Hr.
+  pose proof p52_pos as Hp. pose proof p53_eq as Hp53. pose proof inf_bits_eq as Hinf.
+  destruct (Z.leb_spec p53 q') as [Hcarry | Hnc].
+  - cbv beta iota. rewrite Z.ltb_irrefl.
+    assert (Hq' : q' = p53) by lia.
+    destruct (Z.leb_spec 2047 (e + 1 + 1075)) as [Hov | Hfin].
+    + rewrite Z.min_l; [reflexivity | nia].
+    + rewrite Z.min_r; [nia | nia].
+  - cbv beta iota.
+    destruct (Z.ltb_spec q' p52) as [Hs | Hn52].
+    + assert (He' : e = -1074) by lia. subst e.
+      rewrite Z.min_r; [lia | nia].
+    + destruct (Z.leb_spec 2047 (e + 1075)) as [Hov | Hfin].
+      * rewrite Z.min_l; [reflexivity | nia].
+      * rewrite Z.min_r; [lia | nia].
+Qed.
+
+(* round_mag n d = min(inf, k*2^52 + q') with q' the round-half-even of the scaled quotient *)
+Lemma round_mag_spec n d :
+  0 < n -> 0 < d ->
+  exists e, e_ok n d e /\
+    round_mag n d = Z.min inf_bits ((e + 1074) * p52 + rnd (scale_num n e) (scale_den d e)).
+Proof.
+  intros Hn Hd. exists (choose_e n d). split.
+  - apply choose_e_ok; assumption.
+  - rewrite round_mag_eq by assumption. apply finish_eq; [assumption | apply choose_e_ok; assumption].
+Qed.
+
+(* ---------- distances, scaled to integers ---------- *)
+(* n/d - m*2^e, multiplied by d*2^1074, is a positive multiple of the scaled remainder *)
+Lemma scale_diff n d e :
+  -1074 <= e ->
+  exists c, 0 < c /\
+    forall m, n * S1074 - (m * 2 ^ (e + 1074)) * d = c * (scale_num n e - m * scale_den d e).
+Proof.
+  intros He. unfold scale_num, scale_den. destruct (Z.ltb_spec e 0) as [Hneg | Hpos].
+  - exists (2 ^ (e + 1074)). split; [apply pow2_pos; lia |].
+    intros m. rewrite S1074_eq. replace 1074 with (- e + (e + 1074)) at 1 by lia.
+    rewrite Z.pow_add_r by lia. ring.
+  - exists S1074. split; [apply S1074_pos |].
+    intros m. rewrite Z.pow_add_r by lia. rewrite <- S1074_eq. ring.
+Qed.
+
+(* everything the theorems need to know about one call of round_mag *)
+Lemma round_mag_frame n d :
+  0 < n -> 0 < d ->
+  exists B c r dd,
+    0 <= B /\ 0 < c /\ 0 <= r < dd /\
+    n * S1074 - ival B * d = c * r /\
+    n * S1074 - ival (B + 1) * d = c * (r - dd) /\
+    ((round_mag n d = Z.min inf_bits B /\ 2 * r <= dd /\ (2 * r = dd -> B mod 2 = 0)) \/
+     (round_mag n d = Z.min inf_bits (B + 1) /\ dd <= 2 * r /\ (2 * r = dd -> (B + 1) mod 2 = 0))).
+Proof.
+  intros Hn Hd.
+  destruct (round_mag_spec n d Hn Hd) as (e & [He Hq] & Hrm).
+  pose proof (scale_den_pos d e Hd) as Hdd. pose proof (scale_num_pos n e Hn) as Hnn.
+  destruct (scale_diff n d e He) as (c & Hc & Hdiff).
+  pose proof (rnd_cases (scale_num n e) (scale_den d e) Hdd) as Hr. cbv zeta in Hr.
+  pose proof (Z.div_mod (scale_num n e) (scale_den d e) ltac:(lia)) as Hdm.
+  pose proof (Z.mod_pos_bound (scale_num n e) (scale_den d e) Hdd) as Hmod.
+  set (nn := scale_num n e) in *. set (dd := scale_den d e) in *.
+  set (q := nn / dd) in *. set (r := nn mod dd) in *.
+  pose proof p52_pos as Hp. pose proof p53_eq as Hp53. pose proof p52_even as Hev.
+  assert (Hq0 : 0 <= q) by lia.
+  assert (HB : ival ((e + 1074) * p52 + q) = q * 2 ^ (e + 1074)) by (apply ival_enc; lia).
+  assert (HB1 : ival ((e + 1074) * p52 + q + 1) = (q + 1) * 2 ^ (e + 1074)).
+  { replace ((e + 1074) * p52 + q + 1) with ((e + 1074) * p52 + (q + 1)) by lia. apply ival_enc; lia. }
+  assert (Hpar : ((e + 1074) * p52 + q) mod 2 = q mod 2).
+  { rewrite Hev. replace ((e + 1074) * (2 * 2251799813685248) + q) with (q + (e + 1074) * 2251799813685248 * 2) by lia.
+    apply Z.mod_add. lia. }
+  assert (Hpar1 : ((e + 1074) * p52 + q + 1) mod 2 = (q + 1) mod 2).
+  { rewrite Hev. replace ((e + 1074) * (2 * 2251799813685248) + q + 1) with (q + 1 + (e + 1074) * 2251799813685248 * 2) by lia.
+    apply Z.mod_add. lia. }
+  exists ((e + 1074) * p52 + q), c, r, dd.
+  split; [nia |]. split; [exact Hc |]. split; [exact Hmod |].
+  split. { rewrite HB, Hdiff. f_equal. lia. }
+  split. { rewrite HB1, Hdiff. f_equal. lia. }
+  destruct Hr as [(Hr1 & Hr2 & Hr3) | (Hr1 & Hr2 & Hr3)].
+  - left. rewrite Hrm, Hr1. split; [reflexivity |]. split; [exact Hr2 |].
+    intros Ht. rewrite Hpar. auto.
+  - right. rewrite Hrm, Hr1. split; [f_equal; lia |]. split; [exact Hr2 |].
+    intros Ht. rewrite Hpar1. specialize (Hr3 Ht).
+    rewrite <- Zplus_mod_idemp_l. rewrite Hr3. reflexivity.
+Qed.
+
+(* R1 *)
+Theorem round_mag_range n d : 0 < n -> 0 < d -> 0 <= round_mag n d <= inf_bits.
+Proof.
+  intros Hn Hd. destruct (round_mag_frame n d Hn Hd) as (B & c & r & dd & HB & _ & _ & _ & _ & Hres).
+  pose proof inf_bits_eq. pose proof p52_pos.
+  destruct Hres as [(-> & _) | (-> & _)]; lia.
+Qed.
+
+(* R2, integer form: |n/d - value| scaled by d*2^1074 *)
+Lemma round_mag_nearest_Z n d :
+  0 < n -> 0 < d -> round_mag n d < inf_bits ->
+  forall b, 0 <= b ->
+    Z.abs (n * S1074 - ival (round_mag n d) * d) <= Z.abs (n * S1074 - ival b * d).
+Proof.
+  intros Hn Hd Hfin b Hb.
+  destruct (round_mag_frame n d Hn Hd) as (B & c & r & dd & HB & Hc & Hr & HdB & HdB1 & Hres).
+  assert (Hlow : b <= B -> c * r <= n * S1074 - ival b * d).
+  { intros Hle. pose proof (ival_le b B ltac:(lia)) as Hi. rewrite <- HdB. nia. }
+  assert (Hhigh : B + 1 <= b -> n * S1074 - ival b * d <= c * (r - dd)).
+  { intros Hle. pose proof (ival_le (B + 1) b ltac:(lia)) as Hi. rewrite <- HdB1. nia. }
+  assert (Hcr : 0 <= c * r) by nia.
+  assert (Hcd : c * (r - dd) < 0) by nia.
+  destruct Hres as [(Hrm & Hhalf & _) | (Hrm & Hhalf & _)].
+  - assert (HR : round_mag n d = B) by lia. rewrite HR, HdB.
+    assert (Hcmp : c * r <= c * (dd - r)) by nia.
+    destruct (Z_le_gt_dec b B) as [Hle | Hgt].
+    + specialize (Hlow Hle). lia.
+    + specialize (Hhigh ltac:(lia)). replace (c * (r - dd)) with (- (c * (dd - r))) in * by ring. lia.
+  - assert (HR : round_mag n d = B + 1) by lia. rewrite HR, HdB1.
+    assert (Hcmp : c * (dd - r) <= c * r) by nia.
+    replace (c * (r - dd)) with (- (c * (dd - r))) in * by ring.
+    destruct (Z_le_gt_dec b B) as [Hle | Hgt].
+    + specialize (Hlow Hle). lia.
+    + specialize (Hhigh ltac:(lia)). lia.
+Qed.
+
+(* R3, integer form *)
+Lemma round_mag_ties_even_Z n d :
+  0 < n -> 0 < d -> round_mag n d < inf_bits ->
+  forall b, 0 <= b ->
+    ival b <> ival (round_mag n d) ->
+    Z.abs (n * S1074 - ival (round_mag n d) * d) = Z.abs (n * S1074 - ival b * d) ->
+    (round_mag n d) mod 2 = 0.
+Proof.
+  intros Hn Hd Hfin b Hb Hne Htie.
+  destruct (round_mag_frame n d Hn Hd) as (B & c & r & dd & HB & Hc & Hr & HdB & HdB1 & Hres).
+  assert (Hlow : b <= B -> c * r <= n * S1074 - ival b * d).
+  { intros Hle. pose proof (ival_le b B ltac:(lia)) as Hi. rewrite <- HdB. nia. }
+  assert (Hhigh : B + 1 <= b -> n * S1074 - ival b * d <= c * (r - dd)).
+  { intros Hle. pose proof (ival_le (B + 1) b ltac:(lia)) as Hi. rewrite <- HdB1. nia. }
+  assert (Hcr : 0 <= c * r) by nia.
+  assert (Hcd : c * (r - dd) < 0) by nia.
+  destruct Hres as [(Hrm & Hhalf & Hpar) | (Hrm & Hhalf & Hpar)].
+  - assert (HR : round_mag n d = B) by lia. rewrite HR in *. rewrite HdB in Htie.
+    assert (Hcmp : c * r <= c * (dd - r)) by nia.
+    destruct (Z_le_gt_dec b B) as [Hle | Hgt].
+    + specialize (Hlow Hle). exfalso. apply Hne.
+      assert (Heq : ival b * d = ival B * d) by lia. nia.
+    + specialize (Hhigh ltac:(lia)). replace (c * (r - dd)) with (- (c * (dd - r))) in * by ring.
+      apply Hpar. assert (Heq : c * r = c * (dd - r)) by lia. nia.
+  - assert (HR : round_mag n d = B + 1) by lia. rewrite HR in *. rewrite HdB1 in Htie.
+    assert (Hcmp : c * (dd - r) <= c * r) by nia.
+    replace (c * (r - dd)) with (- (c * (dd - r))) in * by ring.
+    destruct (Z_le_gt_dec b B) as [Hle | Hgt].
+    + specialize (Hlow Hle). apply Hpar. assert (Heq : c * r = c * (dd - r)) by lia. nia.
+    + specialize (Hhigh ltac:(lia)). exfalso. apply Hne.
+      assert (Heq : ival b * d = ival (B + 1) * d) by lia. nia.
 Qed.
